@@ -157,6 +157,9 @@ inductive Gen where
   | boundary (left inter right : Rat) (elem pos : Nat)
   /-- iterator_poly.c: grid values, (shift, mult) per coefficient, position, cached value -/
   | poly (grid : List Rat) (coeff : List (Rat × Rat)) (pos : Nat) (cache : Option Rat)
+  /-- iterator_poly.c without grid data (empty array): the polynomial at the element index 0, 1, 2, …
+      (`UINT_MAX` elements) -/
+  | polyN (coeff : List (Rat × Rat)) (pos : Nat) (cache : Option Rat)
   /-- iterator_values.c: the text, the position behind the current value (`none` = NULL), current value -/
   | values (text : List Char) (next : Option (List Char)) (curr : Rat)
   deriving Repr
@@ -194,6 +197,13 @@ def value : Gen → Gen × Option Rat
       | none =>
         let v := polyEval coeff (grid.getD pos 0)
         (.poly grid coeff pos (some v), some v)
+  | g@(.polyN coeff pos cache) =>
+    if pos ≥ 4294967295 then (g, none)
+    else match cache with
+      | some v => (g, some v)
+      | none =>
+        let v := polyEval coeff (pos : Rat)
+        (.polyN coeff pos (some v), some v)
   | g@(.values _ next curr) => (g, if next.isSome then some curr else none)
 
 /-- `advance()` -/
@@ -212,6 +222,9 @@ def advance : Gen → Gen × AdvRes
   | g@(.poly grid coeff pos _) =>
     if pos ≥ grid.length then (g, .err .BadOperation)
     else (.poly grid coeff (pos + 1) none, if pos + 1 = grid.length then .last else .more)
+  | g@(.polyN coeff pos _) =>
+    if pos ≥ 4294967295 then (g, .err .MissingData)
+    else (.polyN coeff (pos + 1) none, if pos + 1 = 4294967295 then .last else .more)
   | g@(.values text next curr) =>
     match next with
     | none => (g, .err .MissingData)
@@ -228,6 +241,7 @@ def reset : Gen → Gen × Int
   | .factor base fact init elem _ _ => (.factor base fact init elem 0 init, (min elem 2147483647 : Nat))
   | .boundary left inter right elem _ => (.boundary left inter right elem 0, (min elem 2147483647 : Nat))
   | .poly grid coeff _ _ => (.poly grid coeff 0 none, grid.length)
+  | .polyN coeff _ _ => (.polyN coeff 0 none, 0)
   | g@(.values text next _) =>
     match cdouble text with
     | .zero => (.values text next 0, Err.MissingData.code)
@@ -240,6 +254,7 @@ def clone : Gen → Option Gen
   | g@(.factor ..) => some g
   | g@(.boundary ..) => some g
   | .poly .. => none
+  | .polyN .. => none
   | g@(.values ..) => some g
 
 end Gen
@@ -456,6 +471,15 @@ def mkPoly (desc : List Char) (grid : List Rat) : Option Gen :=
       | none => []
     let coeff := (List.range mults.length).map fun j => (shifts.getD j 0, mults.getD j 0)
     some (.poly grid coeff 0 none)
+
+/-- `mpt_iterator_poly(desc, grid)` with an array without data; `desc = none` models NULL (identity) -/
+def mkPolyN (desc : Option (List Char)) : Option Gen :=
+  match desc with
+  | none => some (.polyN [] 0 none)
+  | some d =>
+    match mkPoly d [] with
+    | some (.poly _ coeff _ _) => some (.polyN coeff 0 none)
+    | _ => none
 
 def startsWithCI (s : List Char) (w : String) : Bool := lowerAll (s.take w.length) = w.toList
 
